@@ -16,7 +16,8 @@ theorem array_key_step (g f depth length : Nat) (value buf : Bytes) (k : Nat) (h
   have h4 : ((4 : Nat) : Int) = 4 := rfl
   have h0 : ((0 : Nat) : Int) = 0 := rfl
   rw [Tr.array_convert_to_comparable]
-  simp only [← h4, Rs.mul_usize_nat 4 length (by omega), Ctl.ofRes_ok', Ctl.val_bind', Rs.forRange_zero]
+  simp only [← h4, Rs.mul_usize_nat 4 length (by omega), Rs.mul_usize_nat length 4 (by omega), Nat.mul_comm length 4,
+    Ctl.ofRes_ok', Ctl.val_bind', Rs.forRange_zero]
   rw [← h0]
   have := ka_run (Tr.scalar_convert_to_comparable g) depth value hd hv length f ((0 : Nat) : Int) buf 0 (4 * length) length k hrec
     (Nat.le_refl _) (by omega) hk hne
